@@ -782,6 +782,8 @@ func singleStore(a *ssa.Alloc) ssa.Value {
 			if isWriteAccess(r) || fieldAddrEscapes(r) {
 				return nil
 			}
+		case *ssa.Slice:
+			// slicing a local array variable (x[:]) to pass it on: treated as a read
 		case *ssa.IndexAddr:
 			// element of a spilled array value: fine if elements are only read
 			for _, rr := range *r.Referrers() {
